@@ -46,7 +46,10 @@ def census_key(o):
     if o.kind == "assert":
         if o.desc == "bounds":
             return "index/int"
-        return "arith/int"
+        # an unsigned subtraction that may underflow and an addition that may overflow fail on different inputs: moving a
+        # term across a comparison (`i + a <= n` -> `i <= n - a`) trades one for the other and is not behaviour-preserving
+        op = o.desc.split(":")[-1] if o.desc.startswith("overflow:") else ""
+        return "arith-sub/int" if op in ("Sub", "Neg") else "arith/int"
     if o.desc in INDEX_CALLS:
         return "index/int"
     if o.desc.startswith("int-op:") or o.desc == "Iterator::sum":
